@@ -23,7 +23,8 @@ ASSUMPTIONS = [
     "'forbidden by the settings' = a component isolating a single season whose allow_separate_<season> flag is off, or any "
     "wd/we component when allow_separate_weekday_weekend is off; the Gaussian reduction may only remove candidates",
     "'the data cannot support' = (strict) a component without any baseline day, and (library thresholds, keyed separately) "
-    "a component isolating a season with < 30 baseline days or covering < 8 weekend days",
+    "a component isolating a season with < 30 baseline days or covering < 8 weekend days, or with no more baseline days than the "
+    "profile's segment_minimum_count (such a component cannot be fitted at all)",
     "the statement does not say which admissible splits must be offered, only that the unsplit model always is",
     "selection: the chosen split must attain the minimum of the library's own criterion function over model.combinations "
     "(ties: first); the criterion values are recomputed through the model's criterion method after the fit",
@@ -115,6 +116,8 @@ def support_frame(pattern, zone="UTC"):
         limit(weekend, 6)
     elif pattern == "summer_weekend3":
         limit(weekend & (season == "summer"), 3)
+    elif pattern in ("winter_weekend9", "winter_weekend10", "winter_weekend11"):
+        limit(weekend & (season == "winter"), int(pattern[len("winter_weekend"):]))
     elif pattern == "no_winter":
         keep[season == "winter"] = False
     elif pattern == "half_year":
@@ -138,6 +141,11 @@ def cases_A(tier):
     supports = SUPPORT if tier == "thorough" else ["full", "summer20", "winter20", "weekend6", "summer_weekend3", "no_winter"]
     for sup, smap, wmap in itertools.product(supports, SEASON_MAPS, WEEKDAY_MAPS):
         out.append({"part": "A", "support": sup, "smap": smap, "wmap": wmap})
+    # a (season, day type) cell with just about as many days as the base models set aside at either end of the temperature range
+    # (segment_minimum_count: 6 in the current profile, 10 in the legacy one): a component on that cell cannot be fitted
+    for sup in ("winter_weekend9", "winter_weekend10", "winter_weekend11"):
+        for profile in ("current", "legacy"):
+            out.append({"part": "A", "support": sup, "smap": next(iter(SEASON_MAPS)), "wmap": next(iter(WEEKDAY_MAPS)), "profile": profile})
     return out
 
 
@@ -147,9 +155,12 @@ def run_A(case):
     frame = support_frame(case["support"])
     viol, beh, n = [], [], 0
     base_cands = {}
-    for gaussian in (0, 1):
+    for gaussian in ((0,) if case.get("profile") == "legacy" else (0, 1)):  # the legacy profile has no Gaussian reduction
         for flags in itertools.product([0, 1], repeat=4):
-            m = em.DailyModel(settings=make_settings(flags, gaussian, case["smap"], case["wmap"]))
+            if case.get("profile") == "legacy":
+                m = em.DailyModel(model="legacy", settings=make_settings(flags, gaussian, case["smap"], case["wmap"]))
+            else:
+                m = em.DailyModel(settings=make_settings(flags, gaussian, case["smap"], case["wmap"]))
             m.df_meter, _ = m._initialize_data(frame.copy())
             try:
                 cands = m._combinations()
@@ -196,6 +207,10 @@ def run_A(case):
                                          "detail": f"{c} isolates {a} with {seas_days[a]} baseline days (support={case['support']})"})
                     days = {"fw": wd_days + we_days, "wd": wd_days, "we": we_days}[pre]
                     ndays = int((meter["season"].isin([SEASON_ABBR[a] for a in ss]) & meter["day_of_week"].isin(days)).sum())
+                    if 0 < ndays <= m.settings.segment_minimum_count:
+                        viol.append({"clause": "component_cannot_be_fitted", "key": dict(key, profile=case.get("profile", "current")),
+                                     "detail": f"{c}: component {pre}-{'_'.join(sorted(ss))} has {ndays} baseline days, the base models set aside "
+                                               f"segment_minimum_count={m.settings.segment_minimum_count} days at either end of its temperature range"})
                     if ndays == 0:
                         viol.append({"clause": "component_without_data", "key": key,
                                      "detail": f"{c}: component {pre}-{'_'.join(sorted(ss))} has no baseline day"})
